@@ -1,7 +1,7 @@
 CONSTANTS
   NA = 2
-  LockOf0 <- L12
-  MaxOps = 2
+  LockOf0 <- L112
+  MaxOps = 3
   MaxSec = 2
   Timeouts = TRUE
   Handoff = TRUE
@@ -10,10 +10,10 @@ CONSTANTS
   MaxWait = 2
   UniqueVals = TRUE
   Ghost = TRUE
-  Mut = "no-restore"
-  MaxDie = 0
+  Mut = "none"
+  MaxDie = 1
   EdgeFile = ""
 INIT Init
 NEXT Next
 CHECK_DEADLOCK TRUE
-INVARIANTS TypeOK Serializable QuiescentAgree NoLeak NoIndefiniteBlock
+INVARIANTS TypeOK Serializable QuiescentAgree NoLeak NoIndefiniteBlock DeadInvisible
